@@ -24,6 +24,7 @@ type Cfg struct {
 	Maxpend    int   `json:"Maxpend"`
 	Dotu       bool  `json:"Dotu"`
 	Handshake  bool  `json:"Handshake"`
+	Bystander  bool  `json:"Bystander"` // a second connection with one attached fid
 }
 
 type Behaviour struct {
@@ -33,20 +34,24 @@ type Behaviour struct {
 
 // Case is one controlled execution.
 type Case struct {
-	C         *Ctl
-	Cfg       Cfg
-	ch        *ConnH
-	nwire     int
-	Trace     []Event // internal trace lines (act, args, post)
-	rng       *rand.Rand
-	Drift     string
-	late      map[int]bool // requests whose implementation call returned without answering
-	answered  map[int]bool
-	extraDone map[int]bool
-	kinds     map[int]string
-	Closed    bool
-	written   map[int]bool // requests whose reply the send goroutine has started to write
-	noTrace   bool         // stop logging internal trace lines (after out-of-model probe traffic)
+	C           *Ctl
+	Cfg         Cfg
+	ch          *ConnH
+	by          *ConnH  // bystander connection (nil if none)
+	Steps       [][]any // steps performed (for the replay file)
+	byTag       int
+	nwire       int
+	Trace       []Event // internal trace lines (act, args, post)
+	rng         *rand.Rand
+	Drift       string
+	late        map[int]bool // requests whose implementation call returned without answering
+	answered    map[int]bool
+	extraDone   map[int]bool
+	kinds       map[int]string
+	Closed      bool
+	written     map[int]bool // requests whose reply the send goroutine has started to write
+	enq, atSend map[int]bool
+	noTrace     bool // stop logging internal trace lines (after out-of-model probe traffic)
 }
 
 func toInt(v any) int {
@@ -139,7 +144,7 @@ func (k *Case) Do(step []any) error {
 	case "Recv":
 		kind := step[1].(string)
 		c.Send(k.ch, k.msgFor(kind, a(2), a(3), a(4), a(5)), nil)
-		k.kinds[len(c.Reqs)] = kind
+		k.kinds[len(k.ch.Reqs)] = kind
 		k.logStep(act, kind, a(2), a(3), a(4), a(5))
 		return nil
 	case "WStart":
@@ -175,10 +180,10 @@ func (k *Case) Do(step []any) error {
 	case "ImplLate":
 		out := step[2].(string)
 		r := a(1)
-		if !k.late[r] || k.answered[r] || r > len(c.Reqs) {
+		if !k.late[r] || k.answered[r] || r > len(k.ch.Reqs) {
 			return fmt.Errorf("ImplLate(%d): request was not left unanswered by the implementation", r)
 		}
-		req := c.Reqs[r-1]
+		req := k.ch.Reqs[r-1]
 		cmd := k.implCmd(out)
 		go c.Answer(req, cmd)
 		c.Wait()
@@ -188,10 +193,10 @@ func (k *Case) Do(step []any) error {
 		return nil
 	case "ImplExtra":
 		r := a(1)
-		if !k.answered[r] || r > len(c.Reqs) {
+		if !k.answered[r] || r > len(k.ch.Reqs) {
 			return fmt.Errorf("ImplExtra(%d): not answered yet", r)
 		}
-		req := c.Reqs[r-1]
+		req := k.ch.Reqs[r-1]
 		go c.Answer(req, Cmd{Out: "err", Payload: c.NextPayload()})
 		c.Wait()
 		k.extraDone[r] = true
@@ -210,8 +215,13 @@ func (k *Case) Do(step []any) error {
 		}
 		return err
 	case "REnq":
+		fl := k.flushedAtRespond(a(2))
 		err = c.Grant("resp_enq", a(2))
 		if err == nil {
+			if !fl {
+				k.enq[a(2)] = true
+				k.queued()
+			}
 			k.logStep(act, a(2))
 		}
 		return err
@@ -224,7 +234,7 @@ func (k *Case) Do(step []any) error {
 	case "SWrite", "SWriteClosed":
 		var p *Parked
 		for _, q := range c.Parked() {
-			if q.Point == "send_got" {
+			if q.Point == "send_got" && q.Conn == k.ch.Idx {
 				p = q
 			}
 		}
@@ -278,7 +288,7 @@ func (k *Case) flush3(r int, cancel bool) error {
 		return err
 	}
 	for _, p := range c.Parked() {
-		if p.Point == "flushop" {
+		if p.Point == "flushop" && p.Conn == k.ch.Idx {
 			out := "ignore"
 			if cancel {
 				out = "cancel"
@@ -304,13 +314,14 @@ func (k *Case) enabledSteps() [][]any {
 	var out [][]any
 	senderBusy := k.ch.Writing
 	for _, p := range c.Parked() {
-		if p.Point == "send_got" {
+		if p.Point == "send_got" && p.Conn == k.ch.Idx {
 			senderBusy = true
 		}
 	}
-	senderGone := false
-	_ = senderGone
 	for _, p := range c.Parked() {
+		if p.Conn != k.ch.Idx {
+			continue
+		}
 		switch p.Point {
 		case "proc_start":
 			out = append(out, []any{"WStart", p.Req})
@@ -335,7 +346,7 @@ func (k *Case) enabledSteps() [][]any {
 		case "resp_post":
 			out = append(out, []any{"RPost", 0, p.Req})
 		case "resp_enq":
-			if !senderBusy || k.Cfg.Maxpend > 0 {
+			if !senderBusy || k.queued() < k.Cfg.Maxpend {
 				out = append(out, []any{"REnq", 0, p.Req})
 			}
 		case "resp_next":
@@ -361,13 +372,31 @@ func (k *Case) enabledSteps() [][]any {
 	return out
 }
 
+// queued estimates how many replies sit in conn.reqout: requests released at resp_enq (and not
+// flagged flushed) that the send goroutine has not picked up yet.
+func (k *Case) queued() int {
+	n := 0
+	for r := range k.enq {
+		if !k.atSend[r] {
+			n++
+		}
+	}
+	for _, p := range k.C.Parked() {
+		if p.Point == "send_got" && p.Conn == k.ch.Idx && k.enq[p.Req] && !k.atSend[p.Req] {
+			k.atSend[p.Req] = true
+			n--
+		}
+	}
+	return n
+}
+
 // flushedAtRespond: a request answered while flagged flushed is not queued for sending, so its
 // resp_enq step does not need the sender.
 func (k *Case) flushedAtRespond(r int) bool {
-	if r < 1 || r > len(k.C.Reqs) {
+	if r < 1 || r > len(k.ch.Reqs) {
 		return false
 	}
-	return go9p.VerifReqSnapshot(k.C.Reqs[r-1]).Flush
+	return go9p.VerifReqSnapshot(k.ch.Reqs[r-1]).Flush
 }
 
 // Complete runs random enabled steps until none is left (bounded), so that every execution ends
@@ -398,7 +427,7 @@ func (k *Case) Complete(max int) {
 func (k *Case) targetInImpl(flushReq int) bool {
 	// the flush target is the request at the head of the flush chain that contains flushReq
 	for _, p := range k.C.Parked() {
-		if p.Point != "impl" {
+		if p.Point != "impl" || p.Conn != k.ch.Idx {
 			continue
 		}
 		ri := go9p.VerifReqSnapshot(p.req)
@@ -414,24 +443,31 @@ func (k *Case) targetInImpl(flushReq int) bool {
 
 // setup: optional version handshake and attaches for the initially valid fids, free-running.
 func (k *Case) setup() {
+	k.setupConn(k.ch, k.Cfg.InitFids)
+	if k.by != nil {
+		k.setupConn(k.by, []int{1})
+	}
+}
+
+func (k *Case) setupConn(ch *ConnH, fids []int) {
 	c := k.C
 	c.Gated = false
 	dec := c.Ops.Decide
 	c.Ops.Decide = func(op string, r *go9p.SrvReq) Cmd { return Cmd{Out: "ok", QType: go9p.QTDIR, Payload: 1} }
 	rd := func() {
-		k.ch.Writing = true
-		_, _, _ = c.RecvFrame(k.ch)
+		ch.Writing = true
+		_, _, _ = c.RecvFrame(ch)
 	}
 	if k.Cfg.Handshake {
 		ver := "9P2000"
 		if k.Cfg.Dotu {
 			ver = "9P2000.u"
 		}
-		c.Send(k.ch, &wire.Msg{Type: wire.Tversion, Tag: wire.NOTAG, Msize: 8192, Version: ver}, nil)
+		c.Send(ch, &wire.Msg{Type: wire.Tversion, Tag: wire.NOTAG, Msize: 8192, Version: ver}, nil)
 		rd()
 	}
-	for _, f := range k.Cfg.InitFids {
-		c.Send(k.ch, &wire.Msg{Type: wire.Tattach, Tag: 1, Fid: uint32(f), Afid: wire.NOFID, Uname: "u"}, nil)
+	for _, f := range fids {
+		c.Send(ch, &wire.Msg{Type: wire.Tattach, Tag: 1, Fid: uint32(f), Afid: wire.NOFID, Uname: "u"}, nil)
 		rd()
 	}
 	c.Wait()
@@ -439,11 +475,86 @@ func (k *Case) setup() {
 	c.Gated = true
 	c.mu.Lock()
 	c.reqid = map[*go9p.SrvReq]int{}
-	c.Reqs = nil
-	c.ReqConn = nil
+	for _, h := range c.Conns {
+		h.Reqs = nil
+	}
 	c.Events = nil
 	c.mu.Unlock()
-	k.ch.Writing = false
+	ch.Writing = false
+}
+
+// Bystander issues one Tstat on the second connection and drives ONLY that connection's goroutines
+// until the reply arrives.  If the reply cannot be obtained without releasing a goroutine that
+// serves the first connection, the bystander was disturbed.
+func (k *Case) Bystander() {
+	c := k.C
+	if k.by == nil || k.by.Closed {
+		return
+	}
+	k.byTag++
+	tag := 100 + k.byTag%100
+	m := &wire.Msg{Type: wire.Tstat, Tag: uint16(tag), Fid: 1}
+	c.SendRaw(k.by, wire.Encode(m, k.by.Dotu), nil)
+	ok, what := false, "no reply"
+	next := func() *Parked {
+		for _, q := range c.Parked() {
+			if q.Conn == k.by.Idx {
+				return q
+			}
+		}
+		return nil
+	}
+	for i := 0; i < 60 && !ok; i++ {
+		c.Wait()
+		if k.by.Writing {
+			r, _, err := c.RecvFrame(k.by)
+			if err != nil || r == nil {
+				what = "undecodable reply"
+				break
+			}
+			if r.Type == wire.Rstat && int(r.Tag) == tag && r.Stat.Length == 555 {
+				ok, what = true, ""
+			} else {
+				what = fmt.Sprintf("unexpected reply %s tag %d", wire.TypeName(r.Type), r.Tag)
+			}
+			break
+		}
+		p := next()
+		if p == nil {
+			what = "bystander request makes no progress while the other connection's goroutines are paused"
+			break
+		}
+		cmd := Cmd{}
+		if p.Point == "impl" {
+			cmd = Cmd{Out: "ok", Payload: 555}
+		}
+		if err := c.GrantP(p, cmd); err != nil {
+			what = err.Error()
+			break
+		}
+	}
+	for i := 0; i < 20; i++ { // let the bystander's worker and sender finish
+		c.Wait()
+		p := next()
+		if p == nil {
+			break
+		}
+		_ = c.GrantP(p, Cmd{Out: "ok", Payload: 555})
+	}
+	// bystander traffic is not part of the first connection's history
+	c.mu.Lock()
+	var keep []Event
+	for _, e := range c.Events {
+		if ci, has := e["c"]; has && ci == k.by.Idx {
+			continue
+		}
+		if e["ev"] == "answer" && e["payload"] == uint64(555) {
+			continue
+		}
+		keep = append(keep, e)
+	}
+	c.Events = append(keep, Event{"ev": "bystander", "ok": ok, "what": what})
+	c.mu.Unlock()
 }
 
 // RunCase executes fn inside a fresh synctest bubble with a fresh server; returns the panic
@@ -465,10 +576,14 @@ func RunCase(t *testing.T, lg *go9p.Logger, cfg Cfg, seed int64, fn func(k *Case
 		c.Start(srv, ops)
 		defer c.Stop()
 		k := &Case{C: c, Cfg: cfg, rng: rand.New(rand.NewSource(seed)), late: map[int]bool{}, answered: map[int]bool{},
-			extraDone: map[int]bool{}, kinds: map[int]string{}, written: map[int]bool{}}
+			extraDone: map[int]bool{}, kinds: map[int]string{}, written: map[int]bool{}, enq: map[int]bool{}, atSend: map[int]bool{}}
 		kk = k
 		k.ch = c.NewConn()
 		k.ch.Dotu = cfg.Dotu
+		if cfg.Bystander {
+			k.by = c.NewConn()
+			k.by.Dotu = cfg.Dotu
+		}
 		k.setup()
 		fn(k)
 		// teardown: quiesce, note what is still parked, then disconnect and let everything end
@@ -480,7 +595,27 @@ func RunCase(t *testing.T, lg *go9p.Logger, cfg Cfg, seed int64, fn func(k *Case
 			k.Complete(2000)
 		}
 		c.Wait()
+		if k.by != nil {
+			k.Bystander()
+		}
 		c.Emit(Event{"ev": "end", "parked": c.ParkedKeys()})
+		if k.by != nil && !k.by.Closed {
+			c.Close(k.by)
+			for i := 0; i < 10; i++ {
+				c.Wait()
+				var p *Parked
+				for _, q := range c.Parked() {
+					if q.Conn == k.by.Idx {
+						p = q
+						break
+					}
+				}
+				if p == nil {
+					break
+				}
+				_ = c.GrantP(p, Cmd{})
+			}
+		}
 		// release anything still parked so that only genuinely stuck goroutines remain
 		c.Gated = false
 		for _, p := range c.Parked() {
